@@ -10,11 +10,13 @@ import (
 	"encoding/binary"
 	"fmt"
 	"sort"
+	"sync"
 	"sync/atomic"
 	"testing"
 	"time"
 
 	"github.com/pilosa/pilosa"
+	vk "github.com/pilosa/pilosa/internal/verifkit"
 	"github.com/pilosa/pilosa/roaring"
 	"github.com/pilosa/pilosa/test"
 )
@@ -30,6 +32,28 @@ func esrvInstallHook() {
 		}
 		return 0
 	})
+}
+
+// esrvFail forwards a failure to the kit but keeps at most two witnesses per
+// signature and process: the kit stores no more than 40 failures per worker
+// and the driver only sees signatures that made it into that list, so a
+// frequent (known) class must not crowd a new signature out. Further
+// occurrences are counted under "more-failures:<sig>".
+var (
+	esrvFailMu  sync.Mutex
+	esrvFailCnt = map[string]int{}
+)
+
+func esrvFail(r *vk.Run, sig, id, msg string, wit interface{}) {
+	esrvFailMu.Lock()
+	esrvFailCnt[sig]++
+	n := esrvFailCnt[sig]
+	esrvFailMu.Unlock()
+	if n <= 2 || r.Replaying() {
+		r.Fail(sig, id, msg, wit)
+		return
+	}
+	r.Count("more-failures:"+sig, 1)
 }
 
 type esrvEnv struct {
